@@ -55,6 +55,19 @@ Rotate(s0, now, p, reinit, nid) ==
       [] d = "next-keep-cur" -> [ok |-> TRUE, s |-> Stored(s.cur, MintNext(now, p, nid, s.cur.na)), minted |-> 1, d |-> d]
       [] d = "next-promote" -> [ok |-> TRUE, s |-> Stored(s.next, MintNext(now, p, nid, s.next.na)), minted |-> 1, d |-> d]
 
+\* Rotate with a storage fault injected at the first Remove / Load / Store of the roots record ("none": no fault).
+\* A call that reinitialises removes first; nothing is loaded again after a failed step, so what was already
+\* removed stays removed.  A fault at an operation the call does not perform does not fire.
+Faults == {"none", "remove", "load", "store"}
+RotateF(s0, now, p, reinit, nid, fault) ==
+  LET r == Rotate(s0, now, p, reinit, nid)
+      after == IF reinit THEN Empty ELSE s0
+      fail(x) == [ok |-> FALSE, s |-> x, minted |-> 0, d |-> "error"]
+  IN IF fault = "remove" /\ reinit THEN fail(s0)
+     ELSE IF fault = "load" THEN fail(after)
+     ELSE IF fault = "store" /\ r.ok /\ r.d # "none" THEN fail(after)
+     ELSE r
+
 (***************************************************************************)
 (* C08 predicates.  tol: timing tolerance of the observation (0 in the     *)
 (* pure model).  pre/post are stored records; nowLo..nowHi brackets the    *)
